@@ -529,6 +529,38 @@ func dependsOn(v ssa.Value, pred func(ssa.Value) bool) bool {
 				}
 			}
 		}
+		// fresh containers filled element by element: what was put into them
+		switch mk := v.(type) {
+		case *ssa.Slice:
+			// make([]T, const) is rendered as a slice of a new array: element stores go through the slice value
+			if _, fresh := mk.X.(*ssa.Alloc); fresh {
+				for _, r := range *mk.Referrers() {
+					if ia, ok := r.(*ssa.IndexAddr); ok {
+						for _, rr := range *ia.Referrers() {
+							if st, ok := rr.(*ssa.Store); ok && st.Addr == ssa.Value(ia) && rec(st.Val) {
+								return true
+							}
+						}
+					}
+				}
+			}
+		case *ssa.MakeSlice:
+			for _, r := range *mk.Referrers() {
+				if ia, ok := r.(*ssa.IndexAddr); ok {
+					for _, rr := range *ia.Referrers() {
+						if st, ok := rr.(*ssa.Store); ok && st.Addr == ssa.Value(ia) && rec(st.Val) {
+							return true
+						}
+					}
+				}
+			}
+		case *ssa.MakeMap:
+			for _, r := range *mk.Referrers() {
+				if mu, ok := r.(*ssa.MapUpdate); ok && mu.Map == ssa.Value(mk) && (rec(mu.Value) || rec(mu.Key)) {
+					return true
+				}
+			}
+		}
 		// loads from locals: follow stores
 		if u, ok := v.(*ssa.UnOp); ok && u.Op == token.MUL {
 			if a, ok := u.X.(*ssa.Alloc); ok {
